@@ -49,6 +49,17 @@ impl Sink {
         s.0.lock().unwrap().log = Some(vec![]);
         s
     }
+    /// recording sink over a destination that already holds `old` (rewritten in place, not truncated)
+    pub fn recording_over(old: &[u8]) -> Sink {
+        let s = Sink::recording();
+        s.0.lock().unwrap().buf = old.to_vec();
+        s
+    }
+    pub fn recording_faulting(k: u64, mode: FaultMode) -> Sink {
+        let s = Sink::recording();
+        s.0.lock().unwrap().fault_at = Some((k, mode));
+        s
+    }
     pub fn faulting(k: u64, mode: FaultMode) -> Sink {
         let s = Sink::default();
         s.0.lock().unwrap().fault_at = Some((k, mode));
@@ -169,7 +180,13 @@ impl Seek for Sink {
 
 /// Materialise the destination image after the first k logged operations.
 pub fn image_after(log: &[Op], k: usize) -> Vec<u8> {
+    image_after_over(&[], log, k)
+}
+
+/// The same over a destination that held `old` before the first operation.
+pub fn image_after_over(old: &[u8], log: &[Op], k: usize) -> Vec<u8> {
     let mut s = SinkInner::default();
+    s.buf = old.to_vec();
     for op in &log[..k] {
         match op {
             Op::Write(d) => s.do_write(d),
